@@ -437,17 +437,41 @@ EvalAt(site, e, OnVal(_)) ==
             /\ UNCHANGED <<ctl, envs, glob, rep, cells, out, mx>>
        ELSE /\ OnVal(a.r) /\ UNCHANGED exc
 
+\* binding one item to the loop names (tuple unpacking for several names)
+Unpackable(v, k) == k = 1 \/ (v.t = "seq" /\ Len(v.vs) = k)
+UnpackError(v) == IF v.t \in {"seq", "str", "dict", "bytes"} THEN "ValueError" ELSE "TypeError"
+RECURSIVE BindAll(_, _, _, _)
+BindAll(E, ns, v, m) == IF m > Len(ns) THEN E
+                        ELSE BindAll(SetLocal(E, ns[m], IF Len(ns) = 1 THEN v ELSE v.vs[m]), ns, v, m + 1)
+RECURSIVE BindGlob(_, _, _, _)
+BindGlob(G, ns, v, m) == IF m > Len(ns) THEN G
+                         ELSE BindGlob([G EXCEPT ![ns[m]] = IF Len(ns) = 1 THEN v ELSE v.vs[m]], ns, v, m + 1)
+RECURSIVE SetAll(_, _, _, _)
+SetAll(E, ns, vs, m) == IF m > Len(ns) THEN E ELSE SetAll(SetLocal(E, ns[m], vs[m]), ns, vs, m + 1)
+
 SDef ==     \* visit_Define / _enter_assignment / visit_Assignment
   /\ Running /\ F.st = "def"
   /\ LET d == It.def[F.j]
          nxt == IF F.j = Len(It.def) THEN Goto(NextStage(It, "def"))
                 ELSE SetF([F EXCEPT !.j = F.j + 1])
-         K(v) == /\ envs' = SetLocal(envs, d.n, v)
-                 /\ glob' = IF d.g THEN [glob EXCEPT ![d.n] = v] ELSE glob
-                 /\ cells' = IF d.g THEN cells ELSE SetCell(CBk(F.i, F.j), Lookup(d.n))
-                 /\ ctl' = nxt
-                 /\ UNCHANGED <<rep, out>>
-     IN EvalAt(Site(F.i, "def", F.j), d.e, K)
+         \* one name, or several: "(a, b) expr" unpacks the value; every name is bound to ITS item -- locally and,
+         \* for a global definition, in the globals too
+         site == Site(F.i, "def", F.j)
+     IN \E a \in EvAll(d.e, LookupAll) :
+          /\ log' = log \o EvLog(site, a)
+          /\ tok' = site
+          /\ IF IsExc(a.r)
+             THEN /\ RaiseAt(site, a.r.c)
+                  /\ UNCHANGED <<ctl, envs, glob, rep, cells, out>>
+             ELSE IF ~Unpackable(a.r, Len(d.ns))
+             THEN /\ RaiseAt(site, UnpackError(a.r))
+                  /\ UNCHANGED <<ctl, envs, glob, rep, cells, out>>
+             ELSE /\ envs' = BindAll(envs, d.ns, a.r, 1)
+                  /\ glob' = IF d.g THEN BindGlob(glob, d.ns, a.r, 1) ELSE glob
+                  /\ cells' = IF d.g THEN cells
+                              ELSE SetCell(CBk(F.i, F.j), [t |-> "bk", vs |-> [m \in 1..Len(d.ns) |-> Lookup(d.ns[m])]])
+                  /\ ctl' = nxt
+                  /\ UNCHANGED <<rep, out, exc>>
   /\ UNCHANGED <<pid, mx, res>>
 
 SCase ==    \* CASE closure + visit_Cancel
@@ -506,17 +530,6 @@ ItemsOf(v) == CASE v.t = "none" -> <<>>
                 [] v.t = "bytes" -> [n \in 1..StrLen(v.s) |-> [t |-> "byte", s |-> v.s, n |-> n]]
 
 CRepPrev(i) == <<"repprev", i, 0>>
-\* binding one item to the loop names (tuple unpacking for several names)
-Unpackable(v, k) == k = 1 \/ (v.t = "seq" /\ Len(v.vs) = k)
-UnpackError(v) == IF v.t \in {"seq", "str", "dict", "bytes"} THEN "ValueError" ELSE "TypeError"
-RECURSIVE BindAll(_, _, _, _)
-BindAll(E, ns, v, m) == IF m > Len(ns) THEN E
-                        ELSE BindAll(SetLocal(E, ns[m], IF Len(ns) = 1 THEN v ELSE v.vs[m]), ns, v, m + 1)
-RECURSIVE BindGlob(_, _, _, _)
-BindGlob(G, ns, v, m) == IF m > Len(ns) THEN G
-                         ELSE BindGlob([G EXCEPT ![ns[m]] = IF Len(ns) = 1 THEN v ELSE v.vs[m]], ns, v, m + 1)
-RECURSIVE SetAll(_, _, _, _)
-SetAll(E, ns, vs, m) == IF m > Len(ns) THEN E ELSE SetAll(SetLocal(E, ns[m], vs[m]), ns, vs, m + 1)
 
 SRep ==     \* visit_Repeat, up to the loop head
   /\ Running /\ F.st = "rep"
@@ -743,7 +756,7 @@ SUndef ==   \* _leave_assignment in reverse order
      THEN /\ ctl' = Goto(IF It.nm # "" THEN "nend" ELSE "done") /\ UNCHANGED envs
      ELSE LET d == It.def[F.j] IN
           /\ envs' = IF d.g THEN envs
-                     ELSE SetLocal(envs, d.n, Restored(d.n, cells[CBk(F.i, F.j)]))
+                     ELSE SetAll(envs, d.ns, [m \in 1..Len(d.ns) |-> Restored(d.ns[m], cells[CBk(F.i, F.j)].vs[m])], 1)
           /\ ctl' = SetF([F EXCEPT !.j = F.j - 1])
   /\ UNCHANGED <<pid, mx, glob, rep, cells, out, log, tok, exc, res>>
 
@@ -758,7 +771,7 @@ SDone ==    \* element finished: back to the parent's children walk
 (* finally), on-error handling, failure of the render call.                *)
 \* names a frame binds locally
 LocalNames(f) == IF f.i = 0 THEN {} ELSE
-  { items[f.i].def[j].n : j \in { j \in 1..Len(items[f.i].def) : ~items[f.i].def[j].g } }
+  UNION { { items[f.i].def[j].ns[m] : m \in 1..Len(items[f.i].def[j].ns) } : j \in { j \in 1..Len(items[f.i].def) : ~items[f.i].def[j].g } }
   \cup (IF items[f.i].rep.m # "no" /\ ~items[f.i].rep.g
         THEN { items[f.i].rep.ns[m] : m \in 1..Len(items[f.i].rep.ns) } ELSE {})
 \* the local layer after leaving frame f abnormally: as if the restores had run
